@@ -549,6 +549,66 @@ def positions (slotsL : List Slot) : List (Int × Int) :=
       else acc) ((0 : Int), Array.replicate n ((0 : Int), (0 : Int)))
   pos.toList
 
+/-- If no rule of the pass matches anywhere, a step of the engine loop leaves the slot stream as it is (it only moves
+    the position, the mark and the counter). -/
+theorem scanStep_no_match (p : Prog) (rules : List RuleIR) (st : Scan)
+    (h : ∀ r ∈ rules, ∀ out inp, matchSlots p r out inp = none) :
+    (∃ st', scanStep p rules st = .ok st' ∧ st'.seg = st.seg) ∨ scanStep p rules st = .error st.seg := by
+  have hf : ∀ (l : List RuleIR), (∀ r ∈ l, r ∈ rules) →
+      l.foldl (fun (acc : Except Unit (Option (RuleIR × List Slot))) r =>
+        match acc with
+        | .error e => .error e
+        | .ok (some x) => .ok (some x)
+        | .ok none =>
+          match matchSlots p r (st.seg.take st.pos) (st.seg.drop st.pos) with
+          | some ms =>
+            match constraintsHold p r ms with
+            | some true => .ok (some (r, ms))
+            | some false => .ok none
+            | none => .error ()
+          | none => .ok none) (.ok none) = .ok none := by
+    intro l
+    induction l with
+    | nil => intro _; rfl
+    | cons r l ih =>
+      intro hl
+      rw [List.foldl_cons]
+      simp only [h r (hl r List.mem_cons_self)]
+      exact ih (fun x hx => hl x (List.mem_cons_of_mem _ hx))
+  have hfired := hf (trialOrder rules) (fun r hr => (trialOrder_perm rules).mem_iff.mp hr)
+  unfold scanStep
+  simp only [hfired]
+  by_cases h1 : st.pos + 1 ≥ st.seg.length
+  · left; simp only [h1, if_true]; exact ⟨_, rfl, rfl⟩
+  · simp only [h1, if_false]
+    by_cases h2 : uidAt st.seg (st.pos + 1) == st.hw ∨ st.hp
+    · left; simp only [h2, if_true]; exact ⟨_, rfl, rfl⟩
+    · simp only [h2, if_false]
+      by_cases h3 : st.lc ≤ 1
+      · right; simp only [h3, if_true]
+      · left; simp only [h3, if_false]; exact ⟨_, rfl, rfl⟩
+
+/-- A pass none of whose rules matches anywhere is the identity on the slot stream, for every text, whatever the loop
+    counter does. -/
+theorem runPassE_no_match (p : Prog) (rules : List RuleIR) (fuel : Nat) (slots : List Slot)
+    (h : ∀ r ∈ rules, ∀ out inp, matchSlots p r out inp = none) : (runPassE p rules fuel slots).1 = slots := by
+  unfold runPassE
+  split
+  · rfl
+  · have : ∀ (fuel : Nat) (st : Scan), (runScan p rules fuel st).1 = st.seg := by
+      intro fuel
+      induction fuel with
+      | zero => intro st; rfl
+      | succ f ih =>
+        intro st
+        unfold runScan
+        split
+        · rfl
+        · rcases scanStep_no_match p rules st h with ⟨st', h1, h2⟩ | h1
+          · rw [h1]; simp only; rw [ih st', h2]
+          · rw [h1]
+    rw [this]
+
 /-- The scan never loses or invents slots when no rule applies: a pass without rules is the identity. -/
 theorem runPass_no_rules (p : Prog) (fuel : Nat) (out inp : List Slot) (h : inp.length ≤ fuel) :
     (runPass p [] fuel out inp).1 = out ++ inp := by
